@@ -38,6 +38,9 @@ def report_rejections(ctx, rejected, signature, what):
     os.makedirs(os.path.join(core.VERIF, "replays"), exist_ok=True)
     for n, (start, lines, off) in enumerate(rejected):
         sig = signature(lines, off) if signature else "line"
+        if len(ctx.violations) >= 20:        # enough to act on; the count in the evidence is complete
+            ctx.coverage["violations_not_listed"] = ctx.coverage.get("violations_not_listed", 0) + 1
+            continue
         hit = next((k for k in known if k.get("key") == sig), None)
         if hit:
             ctx.known.append({"key": sig, "what": hit.get("what", "")})
@@ -74,6 +77,9 @@ def main(argv):
         print("no check for %s" % pid, file=sys.stderr)
         return EXIT_INFRA
     ctx = core.Ctx(pid, tier)
+    import glob
+    for old in glob.glob(os.path.join(core.VERIF, "replays", "%s-%s-seed%d-*.json" % (pid, tier, ctx.seed))):
+        os.remove(old)      # replay files of an earlier run with the same parameters
     try:
         level = mod.run(ctx)
     except core.Infra as e:
